@@ -18,7 +18,8 @@ RULE = ("base cases: FunctorMap with workers 1-5 and 1-4 fully consumed calls (l
         "base case: dry run, one run per (executed statement, occurrence) with a 120 ms delay in parent and worker "
         "code, random 2-3 delay combinations, forced GIL hand-offs. Oracles: returned sequence == [f(x)] per call "
         "(call-tagged unique items), no exception, quiescence oracle. distinct_nontrivial = distinct (base case, "
-        "thread-switch-pair set, plan size); distinct chunk arrival orders seen are counted from the worker log.")
+        "thread-switch-pair set, plan size); distinct chunk arrival orders seen are counted from the worker log."
+        " Also: items of 1.6 s at the tail of the input, all generators of a map created before the first is consumed, calls made from a side thread, one-shot iterators, list items, array-like inputs, twin items.")
 ASSUMPTIONS = [
     "fork start method (both APIs take closures and rely on fork); functors return normally; generators fully consumed",
     "hangs are decided by the quiescence oracle; the hard wall limit yields INCONCLUSIVE",
